@@ -99,6 +99,30 @@ fn known_signature_c01(p: &Placed, t: usize, v: &Value) -> String {
             }
         }
     }
+    // a flattened enum with an `untagged` variant that serde writes as nothing (`Option::None`, a
+    // unit variant): never generated (the flatten rules exclude it), here for the replay file
+    for td in &p.module.types {
+        for f in td.all_fields() {
+            if !f.flatten {
+                continue;
+            }
+            if let Some(i) = typegen::flatten_target(&f.ty) {
+                if let typegen::Body::Enum(vs) = &p.module.types[i].body {
+                    let nothing = vs.iter().any(|var| {
+                        (var.untagged || p.module.types[i].attrs.untagged)
+                            && match &var.body {
+                                typegen::VBody::Unit => true,
+                                typegen::VBody::Newtype(nf) => matches!(nf.ty, typegen::TyExpr::Option(_)),
+                                _ => false,
+                            }
+                    });
+                    if nothing {
+                        return "flattened-enum-variant-written-as-nothing".into();
+                    }
+                }
+            }
+        }
+    }
     // (only generated under `known_internal_unit_by_name`)
     for td in &p.module.types {
         if let typegen::Body::Enum(vs) = &td.body {
